@@ -110,5 +110,32 @@ def run_sched(res, tier, broken, prop, extra_t1=(), validate_fn=None):
                 sizes={"quick": (16, 3), "thorough": (200, 8), "search": (150, 6)}, reject_is_failure=reject_is_failure)
 
 
+def run_native(res, name, what, ncases_key=None):
+    """a native program of harness/ (real OS threads, public API, its own time bounds): exit 0 ok, 1 violation"""
+    import subprocess
+    exe = C.cc_harness(name, [name + ".c"], "plain")
+    try:
+        p = subprocess.run([exe], stdout=subprocess.PIPE, stderr=subprocess.STDOUT, timeout=180)
+        rc, out = p.returncode, p.stdout.decode("utf-8", "replace")
+    except subprocess.TimeoutExpired:
+        rc, out = -999, "timeout"
+    res.add_cov(**{"native_" + name: "ok" if rc == 0 else "exit %s" % rc})
+    if rc != 0:
+        res.violation("%s: %s" % (what, out.strip().split("\n")[0][:400] or "exit %s" % rc),
+                      {"native": name, "exit": rc, "output": out[-1500:]})
+
+
+def replay_native(rep):
+    import subprocess
+    name = rep["native"]
+    p = subprocess.run([C.cc_harness(name, [name + ".c"], "plain")], stdout=subprocess.PIPE, stderr=subprocess.STDOUT, timeout=180)
+    print(p.stdout.decode("utf-8", "replace")[-1500:])
+    return 1 if p.returncode != 0 else 0
+
+
 def replay(res, path):
+    import json
+    rep = json.load(open(path))
+    if rep.get("native"):
+        return replay_native(rep)
     return vs.replay("sc_units", ["sc_units.c"], path, validate_with_join)
